@@ -259,6 +259,41 @@ def m_conflicted_blocks_rmdir(f, case, viol):
     return bool(paths) and all(any(_unconf(p) == c or _unconf(p).startswith(c + "/") for c in cands) for p in paths)
 
 
+def m_content_revert(f, case, viol):
+    """mechanism: both users create the same path P with different content before the engine is quiet (split / conflict
+    handling); then one of them rewrites P with exactly the OTHER user's bytes - the engine sees equal hashes, 'discard one side
+    and merge' - and afterwards rewrites it once more with bytes P has held before: the merged entry's last-synced hash is stale,
+    the final version 'does not need sync' and is never propagated.  Needs payloads that repeat (C01's repeated-payload runs).
+    History: create P on both sides with different payloads and no quiet between them; a later write to P whose payload equals
+    the other side's; a still later write to P with a payload already seen on P; the only differing path is P, a file on both sides."""
+    plan = case.get("plan", [])
+    ops = [(i, it) for i, it in enumerate(plan) if it and it[0] == "U"]
+    for P in set(it[3] for _, it in ops if it[2] == "create"):
+        cr = [(i, it) for i, it in ops if it[2] == "create" and it[3] == P]
+        sides = {}
+        for i, it in cr:
+            sides.setdefault(it[1], (i, it[4]))
+        if len(sides) < 2 or sides[0][1] == sides[1][1]:
+            continue
+        lo, hi = sorted((sides[0][0], sides[1][0]))
+        if any(_quiet(x) for x in plan[lo + 1:hi]):
+            continue
+        seen = {sides[0][1], sides[1][1]}
+        equalised = False
+        for i, it in ops:
+            if i <= hi or it[3] != P or it[2] != "write":
+                continue
+            if not equalised:
+                if it[4] == sides[1 - it[1]][1]:
+                    equalised = True
+            elif it[4] in seen:
+                paths = _diff_paths(viol)
+                if paths and all(p == P for p in paths) and list(viol.get("tokens") or ["f:f"]) == ["f:f"]:
+                    return True
+            seen.add(it[4])
+    return False
+
+
 def m_event_exc(f, case, viol):
     """mechanism: an exception raised by the state API (state.py) escaped an event-intake step while an event was being
     applied; the provider's read position had already moved past that event, so it is never delivered again."""
@@ -597,7 +632,7 @@ def m_moved_out_race(f, case, viol):
     return _paths_related_to_moves(viol, ok, case)
 
 
-MATCHERS = {"conflicted_blocks_rmdir": m_conflicted_blocks_rmdir, "dup_folder_discard": m_dup_folder_discard, "missing_resurrect": m_missing_resurrect, "pathless_recreate": m_pathless_recreate, "declined_conflict": m_declined_conflict, "mock_path_ci": m_mock_path_ci, "request_stale_entry": m_request_stale_entry, "late_parent_event": m_late_parent_event, "crash_dup_entry": m_crash_dup_entry, "boundary_folder_move": m_boundary_folder_move, "moved_out_race": m_moved_out_race, "crash_rename_over": m_crash_rename_over, "event_exc": m_event_exc, "half_transfer": m_half_transfer, "history": m_history, "rename_race": m_rename_race, "dirdelete_race": m_dirdelete_race}
+MATCHERS = {"content_revert": m_content_revert, "conflicted_blocks_rmdir": m_conflicted_blocks_rmdir, "dup_folder_discard": m_dup_folder_discard, "missing_resurrect": m_missing_resurrect, "pathless_recreate": m_pathless_recreate, "declined_conflict": m_declined_conflict, "mock_path_ci": m_mock_path_ci, "request_stale_entry": m_request_stale_entry, "late_parent_event": m_late_parent_event, "crash_dup_entry": m_crash_dup_entry, "boundary_folder_move": m_boundary_folder_move, "moved_out_race": m_moved_out_race, "crash_rename_over": m_crash_rename_over, "event_exc": m_event_exc, "half_transfer": m_half_transfer, "history": m_history, "rename_race": m_rename_race, "dirdelete_race": m_dirdelete_race}
 
 
 def match_one(f, case, viol):
